@@ -222,7 +222,7 @@ def c19_4(ctx, ss):
         fm, fmflow = fn(ss, "modeling/amplitudechain.py", "AmplitudeChain.from_matched_line")
         adds = [n for n in pf.walk_no_nested(fm.node) if isinstance(n, ast.AugAssign) and isinstance(n.target, ast.Attribute) and n.target.attr == "all_particles"]
         oka = len(adds) == 1 and isinstance(adds[0].op, ast.BitOr) and txt(adds[0].value) in ("{mat['particle']}",) and \
-            [(txt(e), pol) for kind, e, pol in guards.path_conditions(fm.node, adds[0]) if kind == "if"] in ([], [("mat['particle'] not in cls.all_particles", True)])
+            [(txt(e), pol) for kind, e, pol in guards.path_conditions(fm.node, adds[0]) if kind == "if"] in ([], [("mat['particle'] in cls.all_particles", False)])
         if cls_ == CH[0]:
             (ctx.holds if oka else ctx.violation)("C19.4", f"{GOOFIT}:all_particles :: recorded", where(fm, adds[0] if adds else fm.node),
                                                   "every particle of every line is added to all_particles" if oka else "not every particle met while reading is added to all_particles: its _M / _W variables are used but never declared")
